@@ -52,6 +52,9 @@ type OutputStream struct {
 	// messagesMu guards |db|, |batch| and |lastseen|.
 	messagesMu sync.RWMutex
 	newMessage *sync.Cond
+	// closed is set by Close: nothing will ever be added to this stream
+	// again.
+	closed bool
 
 	db       *leveldb.DB
 	batch    leveldb.Batch
@@ -90,7 +93,19 @@ func NewOutputStream(tmpdir string) (*OutputStream, error) {
 	return os, os.reset()
 }
 
+// Close closes the underlying database and deletes it. Readers which are
+// blocked in GetNext are woken up: GetNext returns no messages on a closed
+// stream, so that the caller can switch to the stream which replaces this
+// one (see FSM.Restore).
 func (o *OutputStream) Close() error {
+	o.messagesMu.Lock()
+	defer o.messagesMu.Unlock()
+	o.closed = true
+	o.newMessage.Broadcast()
+	return o.closeLocked()
+}
+
+func (o *OutputStream) closeLocked() error {
 	if o.db == nil {
 		return nil
 	}
@@ -107,7 +122,7 @@ func (os *OutputStream) reset() error {
 	os.messagesMu.Lock()
 	defer os.messagesMu.Unlock()
 
-	if err := os.Close(); err != nil {
+	if err := os.closeLocked(); err != nil {
 		return err
 	}
 
@@ -242,6 +257,10 @@ func (os *OutputStream) GetNext(ctx context.Context, lastseen robust.Id) []Messa
 	// find a more recent message.
 
 	os.messagesMu.RLock()
+	if os.closed {
+		os.messagesMu.RUnlock()
+		return []Message{}
+	}
 	next, ok := os.nextUnlocked(uint64(lastseen.Id))
 	os.messagesMu.RUnlock()
 	if ok {
@@ -254,6 +273,10 @@ func (os *OutputStream) GetNext(ctx context.Context, lastseen robust.Id) []Messa
 	// which was added in the meantime is not necessarily newer than lastseen.
 	os.messagesMu.Lock()
 	for {
+		if os.closed {
+			os.messagesMu.Unlock()
+			return []Message{}
+		}
 		next, ok := os.nextUnlocked(uint64(lastseen.Id))
 		if ok {
 			os.messagesMu.Unlock()
